@@ -530,6 +530,8 @@ def c16(run):
     r1 = run.rule
     run.rule = r1 + "  ||  " + fcands(run, "C16", "ansi")
     dict_pass(run)
+    # ANSI inside whole sessions: switched on and off by update-engine, words typed again afterwards, both methods
+    shadow_trace(run, "C16", "ansi")
     design_candidates(run, ["AnsiGate"], 1, 2)
     design_fixedlist(run, ["FAnsiGate"], 1, 2)
 
